@@ -91,6 +91,10 @@ def history_from(rng, gt, sem):
         if rng.random() < 0.3:
             calls.append(['world', w])
     rng.shuffle(calls)
+    # a preview of the export before the model is finished (the description of the finished
+    # model must not depend on it)
+    if calls and rng.random() < 0.3:
+        calls.insert(rng.randrange(len(calls) + 1), ['preview'])
     return calls
 
 def apply_history(logic, calls):
@@ -101,6 +105,11 @@ def apply_history(logic, calls):
         k = c[0]
         if k == 'access':
             m.R.add((c[1], c[2]))
+        elif k == 'preview':
+            try:
+                m.get_data()
+            except Exception:
+                pass
         elif k == 'world':
             m.R[c[1]]
             m.frames[c[1]] if L.Meta.modal else None
@@ -126,6 +135,8 @@ def reference_model(sem, calls, lib_R=None):
     neg = sem.ops['Negation']
     for c in calls:
         k = c[0]
+        if k == 'preview':
+            continue
         if k == 'access':
             R.add((c[1], c[2])); worlds.update((c[1], c[2]))
         elif k == 'world':
